@@ -290,41 +290,43 @@ def truthy : Expr → Bool
 def dedup (l : List String) : List String :=
   l.foldl (fun acc s => if acc.contains s then acc else acc ++ [s]) []
 
+/-- `_params(f.a)` for the head of a KGFn: only a symbol (a call through a name or a parameter) is
+    looked at; an operator contributes nothing and the body of a nested function literal is its own scope -/
+def headParams : Expr → List String
+  | .sym s => if reserved s then [s] else []
+  | _ => []
+
 mutual
-/-- `_e`: the reserved symbols occurring in an AST (nested function literals included; the operand
-    of a monadic operator and the verb of an adverb are NOT visited, as in the Python code) -/
+/-- `_params`: the parameter symbols referenced anywhere in an expression — operands of monadic and
+    dyadic operators, verb and operand of an adverb, arguments of nested calls, conditionals; not the
+    body of a nested function literal -/
 def params : Expr → List String
   | .sym s => if reserved s then [s] else []
-  | .op1 _ (.cond c a b) => params c ++ params a ++ params b     -- KGCond is a list: visited
-  | .op1 _ _ => []
+  | .op1 _ a => params a
   | .op2 _ a b => params a ++ params b
-  | .asg _ e => params e            -- args = [KGSym name, e]; the name is never reserved here
-  | .fn a _ => params a
-  | .callN a _ => params a
-  | .proj a as _ => params a ++ paramsL as
-  | .call a as _ => params a ++ paramsL as
+  | .asg s e => (if reserved s then [s] else []) ++ params e
+  | .fn a _ => headParams a
+  | .callN a _ => headParams a
+  | .proj a as _ => headParams a ++ paramsL as
+  | .call a as _ => headParams a ++ paramsL as
   | .prog es => paramsL es
   | .cond c a b => params c ++ params a ++ params b
-  | .each _ arg => params arg
-  | .over _ arg => params arg
+  | .each f arg => params f ++ params arg
+  | .over f arg => params f ++ params arg
   | _ => []
 def paramsL : List Expr → List String
   | [] => []
   | e :: es => params e ++ paramsL es
 end
 
-/-- first branch of get_fn_arity: the body is one call / projection through a non-reserved symbol -/
-def argSlots : List Expr → List String
-  | [] => []
-  | .hole :: r => "" :: argSlots r
-  | .sym s :: r => if reserved s then s :: argSlots r else argSlots r
-  | _ :: r => argSlots r
-
+/-- `get_fn_arity`: the number of distinct parameters referenced in the body; when the body is one
+    call / projection through a (non-reserved) name, its holes count too — all of them as one -/
 def fnArity (body : Expr) : Nat :=
-  match body with
-  | .call (.sym s) as _ => if reserved s then (dedup (params body)).length else (dedup (argSlots as)).length
-  | .proj (.sym s) as _ => if reserved s then (dedup (params body)).length else (dedup (argSlots as)).length
-  | _ => (dedup (params body)).length
+  let extra : List String := match body with
+    | .call (.sym s) as _ => if !reserved s && hasHole as then [""] else []
+    | .proj (.sym s) as _ => if !reserved s && hasHole as then [""] else []
+    | _ => []
+  (dedup (params body ++ extra)).length
 
 /-! ## `_resolve_fn` and `merge_projections` -/
 
